@@ -4,7 +4,8 @@
 Each mutant patch is applied to a scratch copy of /repo (outside /repo and /verif, removed afterwards)
 and the property's check must exit 1 with a VIOLATION line.  Entries with expect=pass must exit 0: the
 unchanged tree, and the changes the checks are known not to reach (known_miss: printed as MISS, with the reason
-in corpus.json and in DESIGN.md) - if one of those starts being detected the entry has to be updated."""
+in corpus.json and in DESIGN.md) - if one of those starts being detected the entry has to be updated - and the
+behaviour-preserving edits under selftest/equivalent/ (printed as quiet; an ALARM there is a false alarm)."""
 import json
 import os
 import shutil
@@ -44,7 +45,7 @@ try:
         want = ent.get('expect', 'violation')
         got = 'violation' if (r.returncode == 1 and viol) else ('pass' if r.returncode == 0 else 'error')
         hit = want == got and (not ent.get('obligation') or any(ent['obligation'] in l for l in viol))
-        print('%s %-45s %s want=%s got=%s %s' % (('MISS ' if ent.get('known_miss') else 'ok   ') if hit else 'FAIL ', ent['patch'], ent['property'], want, got, (viol[0].split('replay=')[1] if viol else '')[:90]))
+        print('%s %-45s %s want=%s got=%s %s' % (('MISS ' if ent.get('known_miss') else ('quiet' if ent.get('equivalent') else 'ok   ')) if hit else ('ALARM' if ent.get('equivalent') else 'FAIL '), ent['patch'], ent['property'], want, got, (viol[0].split('replay=')[1] if viol else '')[:90]))
         ok = ok and hit
 finally:
     shutil.rmtree(scratch_root, ignore_errors=True)
